@@ -31,6 +31,10 @@ def gen(rng, ctx):
     shape = rng.choice(["tree", "diamond", "random", "random", "multi", "wide", "chain"])
     sup = rng.random() < 0.4
     cd = G.rand_circuit(rng, ni, ng, max_fanin=4, p_wide=0.25, shape=shape, p_const=0.1, n_outputs=1 if sup else rng.randint(1, 4), p_input_output=0.03, ensure_loaded=not sup)
+    if sup and rng.random() < 0.08:
+        # several outputs with construct_supercircuit=True: the library must refuse, or be right
+        cd2 = G.rand_circuit(rng, ni, ng, max_fanin=3, shape=rng.choice(["chain", "random"]), n_outputs=rng.randint(2, 3), p_input_output=0.0, p_const=0.0)
+        return {"c": cd2, "supercircuit": True, "shape": "multi_output_supercircuit"}
     if sup:
         # single output: keep only the cone of one output
         outs = G.cd_outputs(cd)
@@ -107,9 +111,14 @@ def check(case, ctx):
         ok, r = ctx.call(cg.tx.supergates, c, case["supercircuit"])
     finally:
         cg.tx.limit_fanin = orig
+    if not ok and case["supercircuit"] and len(net.outputs) > 1 and isinstance(r, ValueError):
+        ctx.reject("supercircuit_needs_single_output")
+        return
     if not ok:
         ctx.violation("supergates_raised", f"supergates raised {r!r}\n{getattr(r, '_tb', '')}")
         return
+    if case["supercircuit"] and len(net.outputs) > 1:
+        ctx.count("multi_output_supercircuit_accepted")
     ctx.count("cmp:supergates")
     if len(captured) != 1 or captured[0][0] != 2:
         ctx.count("note:internal_limit_fanin_not_observed")
